@@ -6,3 +6,5 @@ open AC.Props.C08
 #print axioms C08_contfrac_complete
 #print axioms C08_fuel_mono
 #print axioms C08_strategy_range
+#print axioms C08_src_halving
+#print axioms C08_src_deltaLargest
